@@ -8,6 +8,7 @@ import (
 	"sync/atomic"
 
 	"github.com/mgtv-tech/redis-GunYu/pkg/log"
+	"github.com/mgtv-tech/redis-GunYu/pkg/verifhook"
 )
 
 // dataSet
@@ -449,6 +450,7 @@ func (ds *dataSet) gcLogs(dir string, maxSize int64) {
 		if size > maxSize {
 			if rdb.rwRef.Load() == 0 {
 				rdbfn := rdbFilePath(dir, rdb.left, rdb.rdbSize)
+				verifhook.Point("store.fs", "gc.remove", rdbfn)
 				if err := os.RemoveAll(rdbfn); err != nil {
 					log.Errorf("GC Logs, remove rdb file error : file(%s), error(%v)", rdbfn, err)
 				} else {
@@ -480,6 +482,7 @@ func (ds *dataSet) gcLogs(dir string, maxSize int64) {
 				break
 			} else {
 				aoffn := aofFilePath(dir, aof.left)
+				verifhook.Point("store.fs", "gc.remove", aoffn)
 				if err := os.RemoveAll(aoffn); err != nil {
 					log.Errorf("GC Logs, remove aof file error : file(%s), error(%v)", aoffn, err)
 				} else {
